@@ -10,7 +10,7 @@ require (
 	github.com/cuteLittleDevil/go-jt808/terminal v0.0.0
 )
 
-require golang.org/x/text v0.21.0 // indirect
+require golang.org/x/text v0.21.0
 
 replace (
 	github.com/cuteLittleDevil/go-jt808/attachment => /repo/attachment
